@@ -6,11 +6,12 @@ From Coquelicot Require Import Coquelicot.
 Import ListNotations.
 Open Scope R_scope.
 
-(* hypotheses on a chemical: continuous heat capacities on T > 0, positive reference state,
-   0 < Tm < Tb, a non-zero heat of vaporisation at Tb (a zero one is falsy in Python: Svap_Tb = None) *)
+(* hypotheses on a chemical: continuous heat capacities on T > 0, positive reference state, 0 < Tm and 0 < Tb
+   IN EITHER ORDER (a chemical that sublimes at atmospheric pressure, e.g. CO2, has Tm > Tb), a non-zero heat of
+   vaporisation at Tb (a zero one is falsy in Python: Svap_Tb = None) *)
 Definition chem_ok (Cn : phase -> R -> R) (Hv : R -> R) (T_ref P_ref Tm Tb : R) : Prop :=
   (forall ph t, 0 < t -> continuous (Cn ph) t) /\
-  0 < T_ref /\ 0 < P_ref /\ 0 < Tm /\ Tm < Tb /\ Hv Tb <> 0.
+  0 < T_ref /\ 0 < P_ref /\ 0 < Tm /\ 0 < Tb /\ Hv Tb <> 0.
 
 Section Pure.
   Variable Cn : phase -> R -> R.
@@ -30,11 +31,11 @@ Section Pure.
   Let Tr := proj1 (proj2 OK).
   Let Pr := proj1 (proj2 (proj2 OK)).
   Let Tmp := proj1 (proj2 (proj2 (proj2 OK))).
-  Let TmTb := proj1 (proj2 (proj2 (proj2 (proj2 OK)))).
+  Let Tbp := proj1 (proj2 (proj2 (proj2 (proj2 OK)))).
   Let Hvnz := proj2 (proj2 (proj2 (proj2 (proj2 OK)))).
 
   Lemma Tm_nz : Tm <> 0. Proof. pose proof Tmp. lra. Qed.
-  Lemma Tb_pos : 0 < Tb. Proof. pose proof Tmp. pose proof TmTb. lra. Qed.
+  Lemma Tb_pos : 0 < Tb. Proof. exact Tbp. Qed.
   Lemma Tb_nz : Tb <> 0. Proof. pose proof Tb_pos. lra. Qed.
   Lemma Pr_nz : P_ref <> 0. Proof. pose proof Pr. lra. Qed.
   Lemma ratio_pos P : 0 < P -> 0 < P / P_ref. Proof. intros. apply Rdiv_lt_0_compat; [assumption | exact Pr]. Qed.
@@ -375,12 +376,18 @@ Lemma Sfus_derived_lemma Rg (aH aT : option R) (Hf Tmv : R) : Tmv <> 0 ->
 Proof.
   intros NZ. pose proof (is0R_false _ NZ) as E0.
   unfold init_data_Sfus. cbv zeta. simpl eO.
-  cbv -[Rplus Rminus Rmult Rdiv Ropp Rinv ln is0R posR]. rewrite ?E0.
-  cbv -[Rplus Rminus Rmult Rdiv Ropp Rinv ln is0R posR]. rewrite ?E0. reflexivity.
+  cbv -[Rplus Rminus Rmult Rdiv Ropp Rinv ln is0R posR ltR]. rewrite ?E0.
+  cbv -[Rplus Rminus Rmult Rdiv Ropp Rinv ln is0R posR ltR]. rewrite ?E0. reflexivity.
 Qed.
 
 (* ------------------------------------------------------------------ the hypotheses are satisfiable *)
 Lemma chem_ok_example : chem_ok (fun _ _ => 75) (fun _ => 40650) 298 101325 273 373.
+Proof.
+  unfold chem_ok. repeat split; try lra.
+  intros ph t _. apply continuous_const.
+Qed.
+(* and a chemical that sublimes at atmospheric pressure (Tm > Tb, like CO2: 216.65 K / 194.67 K) *)
+Lemma chem_ok_sublimes_example : chem_ok (fun _ _ => 40) (fun _ => 25000) 298 101325 217 195.
 Proof.
   unfold chem_ok. repeat split; try lra.
   intros ph t _. apply continuous_const.
